@@ -66,16 +66,20 @@ def tick(dt, ev="Q", acts=()):
     return [dt, EVENTS[ev] if isinstance(ev, str) else ev, list(acts)]
 
 
-def split_history(hist):
-    """history (list of [dt, ev, acts]) -> (ticks for MarketSpec.gen, script for strategy 0).
+def split_history(hist, n_strategies=1):
+    """history (list of [dt, ev, acts]) -> (ticks for MarketSpec.gen, one script per strategy).
     Actions of history tick i are issued in process_market_book of update i (update 0 = initial image),
-    the market event of history tick i arrives as update i+1."""
-    ticks, script = [], {}
+    the market event of history tick i arrives as update i+1.  An action ["@", k, act] belongs to
+    strategy k, a plain action to strategy 0."""
+    ticks, scripts = [], [dict() for _ in range(n_strategies)]
     for i, (dt, ev, acts) in enumerate(hist):
         ticks.append([dt, ev])
-        if acts:
-            script[(0, i)] = acts
-    return ticks, script
+        for a in acts:
+            if a[0] == "@":
+                scripts[a[1]].setdefault((0, i), []).append(a[2])
+            else:
+                scripts[0].setdefault((0, i), []).append(a)
+    return ticks, scripts
 
 
 # --------------------------------------------------------------------------------------
@@ -157,6 +161,8 @@ class Life:
         self.trans = []
         self.trade_completions = {}
         self.ctx_log = []
+        self.completions = {}
+        self.accepted = {}  # runner key -> [(time, trade)]
         self.upd = 0  # index of the update being processed (0 = initial image)
         self.reported = set()
 
@@ -198,6 +204,8 @@ class Life:
             if n not in ok.get(p, set()):
                 self.v("C10.e", ("trade-log", "%s->%s" % (p, n), site), "trade status %s -> %s at %s" % (p, n, site))
             if n == "COMPLETE":
+                self.completions.setdefault((t.market_id, t.selection_id, t.handicap, id(t.strategy)), []).append(_now())
+                self.c("trade_completions")
                 live = [x for x in t.orders if not x.complete]
                 if live:
                     self.v("C10.b", ("completion", "while-live", site), "trade completed while %d order(s) not complete" % len(live))
@@ -235,6 +243,8 @@ class Life:
     def post_action(self, w, st, market, act, o, out):
         if act[0] == "P":
             self.c("placed" if out is True else "place_refused")
+            if "C10" in self.en and o is not None:
+                self._c10_decision(w, st, market, act, o, out)
             return
         if o is None or self.pre is None:
             return
@@ -420,6 +430,56 @@ class Life:
                 if not live:
                     self.c("runner_all_complete")
 
+    def _c10_decision(self, w, st, market, act, o, out):
+        """c) an accepted placement respects max_trade_count / max_live_trade_count / cool-downs, judged from
+        the real state of the orders; d) no lock-out once every order on the runner is complete."""
+        key = (o.market_id, o.selection_id, o.handicap, id(st))
+        now = _now()
+        t = o.trade
+        acc = self.accepted.setdefault(key, [])
+        others = [x for x in market.blotter.strategy_selection_orders(st, o.selection_id, o.handicap) if x is not o]
+        live_trades = []
+        for x in others:
+            if not x.complete and not any(x.trade is y for y in live_trades):
+                live_trades.append(x.trade)
+        same_live = any(t is y for y in live_trades)
+        multi_exempt = bool(st.multi_order_trades and same_live)
+        placed_trades = []
+        for _, tr in acc:
+            if not any(tr is y for y in placed_trades):
+                placed_trades.append(tr)
+        comps = self.completions.get(key, [])
+        last_comp = comps[-1] if comps else None
+        last_placed = acc[-1][0] if acc else None
+        ev = _evkinds(self.hist, self.upd)
+        forced = bool(act[1].get("force"))
+        if out is True:
+            self.c("clause:C10.c")
+            if not forced:
+                n_tr = len(placed_trades) + (0 if any(t is y for y in placed_trades) else 1)
+                if n_tr > st.max_trade_count:
+                    self.v("C10.c", ("limit", "max_trade_count", ev), "placement accepted: %d distinct trades > max_trade_count %s" % (n_tr, st.max_trade_count))
+                n_live = len(live_trades) + (0 if same_live else 1)
+                if n_live > st.max_live_trade_count:
+                    self.v("C10.c", ("limit", "max_live_trade_count", ev), "placement accepted: %d live trades > max_live_trade_count %s" % (n_live, st.max_live_trade_count))
+                if not multi_exempt:
+                    if last_placed is not None and (now - last_placed).total_seconds() < t.place_reset_seconds:
+                        self.v("C10.c", ("cool-down", "place_reset_seconds", ev), "placement accepted %.3fs after the previous one (place_reset_seconds %s)" % ((now - last_placed).total_seconds(), t.place_reset_seconds))
+                    if last_comp is not None and (now - last_comp).total_seconds() < t.reset_seconds:
+                        self.c("placement_inside_reset_window")
+                        self.v("C10.c", ("cool-down", "reset_seconds", ev), "placement accepted %.3fs after the last completed trade (reset_seconds %s)" % ((now - last_comp).total_seconds(), t.reset_seconds))
+            acc.append((now, t))
+        elif out is False:
+            msg = o.violation_msg or ""
+            if "strategy.validate_order failed" in msg:
+                self.c("clause:C10.d")
+                self.c("refused_by_accounting")
+                all_complete = all(x.complete for x in others)
+                cool = (last_placed is None or (now - last_placed).total_seconds() >= t.place_reset_seconds) and (last_comp is None or (now - last_comp).total_seconds() >= t.reset_seconds)
+                room = (len(placed_trades) < st.max_trade_count) or any(t is y for y in placed_trades)
+                if all_complete and cool and room and st.max_live_trade_count >= 1:
+                    self.v("C10.d", ("lock-out", msg.split("failed:")[1].split("(")[0].strip() if "failed:" in msg else "-", ev), "placement refused although every order on the runner is complete: %s" % msg)
+
     # -- C15 blotter coherence (end of tick)
     def _c15(self, w, market):
         b = market.blotter
@@ -490,14 +550,20 @@ class Life:
                 self.v("C15.d", ("strategy_orders", "matched-only", "-"), "matched_only returned %d orders, expected %d" % (len(got), len(exp)))
             for sel in (1, 2):
                 got = b.strategy_selection_orders(st, sel, 0, order_status=[OrderStatus.EXECUTABLE], matched_only=True)
-                exp = [o for o in base if o.selection_id == sel and o.status == OrderStatus.EXECUTABLE and o.size_matched > 0]
+                exp = [o for o in base if o.selection_id == sel and o.handicap == 0 and o.status == OrderStatus.EXECUTABLE and o.size_matched > 0]
                 if [id(x) for x in got] != [id(x) for x in exp]:
                     self.v("C15.d", ("strategy_selection_orders", "filter", "-"), "selection filter returned %d, expected %d" % (len(got), len(exp)))
 
 
+def _now():
+    from flumine import config
+
+    return config.current_time
+
+
 def _placed(st):
     """(log entry, order) pairs of placement actions in creation order."""
-    creations = [e for e in st.log if e[2][0] == "P"]
+    creations = [e for e in st.log if e[2][0] == "P" and e[3] != "notrade"]
     return list(zip(creations, getattr(st, "_created", [])))
 
 
@@ -533,25 +599,38 @@ def _evkinds(hist, upd):
 
 def run_history(hist, enabled, cfg=None):
     cfg = cfg or {}
-    ticks, script = split_history(hist)
-    spec = simx.MarketSpec(book0=cfg.get("book0", BOOK0), bet_delay=cfg.get("bet_delay", 0), persistence=cfg.get("persistence", True), market_type=cfg.get("market_type", "WIN"))
+    ns = cfg.get("n_strategies", 1)
+    ticks, scripts = split_history(hist, ns)
+    spec = simx.MarketSpec(
+        book0=cfg.get("book0", BOOK0),
+        bet_delay=cfg.get("bet_delay", 0),
+        persistence=cfg.get("persistence", True),
+        market_type=cfg.get("market_type", "WIN"),
+        sels=cfg.get("sels", ((1, 0), (2, 0))),
+    )
     life = Life(enabled, hist, extra={"cfg": cfg})
     skw = dict(max_order_exposure=None, max_selection_exposure=None, max_live_trade_count=cfg.get("max_live", 3))
     skw.update(cfg.get("strategy_kw") or {})
+    life.skw = skw
     _install_created_tracking()
+    nc = cfg.get("n_clients", 1)
+    strategies = [dict(script=scripts[k], kw=dict(skw), client=(k % nc), name="S%d" % k) for k in range(ns)]
     w = simx.SimWorld(
         [(spec, ticks)],
-        [dict(script=script, kw=skw)],
+        strategies,
         hooks=life,
         cfg=cfg.get("config"),
         client_kw=cfg.get("client_kw"),
+        n_clients=nc,
     )
     w.run()
+    first = sorted(enabled)[0]
     if w.run_exception is not None:
-        life.v("C03.a" if "C03" in enabled else sorted(enabled)[0] + ".a", ("run", "exception", type(w.run_exception).__name__), "run raised %r\n%s" % (w.run_exception, getattr(w, "run_traceback", "")[-600:]))
-    for e in w.strategies[0].log:
-        if isinstance(e[3], str) and e[3].startswith("raise!"):
-            life.v(sorted(enabled)[0] + ".a", ("action", "unexpected-exception", e[3].split(":")[1]), "action %s raised %s" % (e[2], e[3]))
+        life.v(first + ".a", ("run", "exception", type(w.run_exception).__name__), "run raised %r\n%s" % (w.run_exception, getattr(w, "run_traceback", "")[-600:]))
+    for st in w.strategies:
+        for e in st.log:
+            if isinstance(e[3], str) and e[3].startswith("raise!"):
+                life.v(first + ".a", ("action", "unexpected-exception", e[3].split(":")[1]), "action %s raised %s" % (e[2], e[3]))
     outcome = core.stable_hash([[sname(o.status), round(o.size_matched, 2), round(o.size_remaining, 2)] for o in w.all_orders()] + [life.trans])
     return dict(canon=hash(life.canon) if life.canon is not None else None, violations=_dedup(life.viol), counts=life.counts, outcome=outcome)
 
@@ -582,7 +661,8 @@ def _install_created_tracking():
         o = orig(self, market, t)
         if not hasattr(self, "_created"):
             self._created = []
-        self._created.append(o)
+        if o is not None:
+            self._created.append(o)
         return o
 
     Scripted.make_order = make_order
